@@ -287,14 +287,15 @@ def execute_cell(cell: Dict[str, Any], tmp: str) -> Dict[str, Any]:
                 results[route] = ["other", type(res).__name__]
                 viol("route:not-a-database:" + route, {**ctx, "got": type(res).__name__})
                 continue
-            dig, snap = E1.content_digest(res)
+            full = not (route in OPT_ROUTES and cell["rend"] == "tagged")
+            dig, snap = E1.content_digest(res, full)
             results[route] = ["db", dig]
             if want[0] != "db":
                 viol("route:invalid-doc-returned-db:" + route, {**ctx, "reference": want})
                 continue
-            if dig != want[1]:
+            if dig != want[2 if full else 1]:
                 viol(("route:partial-read-returned-db:" if eio_here else "route:differs-from-reference:") + route,
-                     {**ctx, "want": want[1], "got": dig, "got_summary": E1.summary(snap)})
+                     {**ctx, "want": want[2 if full else 1], "got": dig, "got_summary": E1.summary(snap)})
                 continue
             if route in OPT_ROUTES:
                 wq = st["renderers"]["tagged"] if cell["rend"] == "tagged" else None
